@@ -50,9 +50,23 @@ def run(ctx: Ctx):
     check_secret_oracle(ctx)
     # DJ verdict
     dj = ctx.repo.func("algorithms.deutschjozsa.DeutschJozsa.decode_output")
-    r = q.returns(dj)
-    ok = len(r) == 1 and isinstance(r[0].value, ast.IfExp) and norm(r[0].value.body) == "'Constant'" and norm(r[0].value.orelse) == "'Balanced'" and norm(r[0].value.test).replace(" ", "").endswith("==0")
-    ctx.check(ok, "SB-TWIN", dj, "all-zero outcome means Constant", norm(r[0].value) if r else "", "the Deutsch-Jozsa verdict is not `Constant iff the input register reads 0`", dj.node)
+    # (verdict, condition it is returned under) pairs, whichever way the two-way choice is spelled
+    outs = []
+    for r in q.returns(dj):
+        v = r.value
+        base = [(norm(e).replace(" ", ""), pol) for e, pol in guard_facts(dj, r)]
+        if isinstance(v, ast.IfExp):
+            t = norm(v.test).replace(" ", "")
+            outs.append((norm(v.body), base + [(t, True)]))
+            outs.append((norm(v.orelse), base + [(t, False)]))
+        elif v is not None:
+            outs.append((norm(v), base))
+    verd = {o: c for o, c in outs}
+    if set(verd) != {"'Constant'", "'Balanced'"}:
+        ctx.undecided(dj.short, f"decode_output returns {sorted(verd)}: not the two verdicts 'Constant' / 'Balanced'")
+    else:
+        zero = lambda conds, want: any(f.endswith("==0") and pol == want for f, pol in conds) or any(f.endswith("!=0") and pol != want for f, pol in conds)
+        ctx.check(zero(verd["'Constant'"], True) and zero(verd["'Balanced'"], False), "SB-TWIN", dj, "all-zero outcome means Constant", str(outs)[:100], f"the Deutsch-Jozsa verdict is not `Constant iff the input register reads 0` (returns {outs})", dj.node)
 
 
 def check_sandwich(ctx: Ctx, init: FuncInfo, spec: Dict):
@@ -122,8 +136,23 @@ def check_secret_oracle(ctx: Ctx):
     joins = [c for c in q.calls(fi.node) if isinstance(c.func, ast.Attribute) and c.func.attr == "join"]
     ok = False
     why = "xor-join not found"
-    if len(joins) == 1 and isinstance(joins[0].func.value, ast.Constant) and joins[0].func.value.value.strip() == "^":
-        g = joins[0].args[0]
+    xj = [j for j in joins if isinstance(j.func.value, ast.Constant) and isinstance(j.func.value.value, str) and j.func.value.value.strip() == "^"]
+    if len(xj) != 1:
+        ctx.undecided(fi.short, f"the generated predicate is not assembled by one '^'.join(...) ({len(xj)} found)")
+        return
+    joins = xj
+    g0 = joins[0].args[0]
+    if isinstance(g0, ast.Name):
+        # a list filled by a loop: terms.append(<elt>) for i in range(n)
+        apps = [c for c in q.method_calls(fi.node, "append") if norm(c.func.value) == g0.id]
+        lp = [l for l in q.for_loops(fi.node) if apps and q.contains(l, apps[0])]
+        if len(apps) == 1 and len(lp) == 1 and len(lp[0].body) == 1:
+            g0 = ast.ListComp(elt=apps[0].args[0], generators=[ast.comprehension(target=lp[0].target, iter=lp[0].iter, ifs=[], is_async=0)])
+        else:
+            ctx.undecided(fi.short, "the terms of the generated predicate are collected in a form outside the tables")
+            return
+    if len(joins) == 1:
+        g = g0
         if isinstance(g, (ast.GeneratorExp, ast.ListComp)):
             elt = norm(g.elt)
             it = norm(g.generators[0].iter).replace(" ", "")
